@@ -15,9 +15,13 @@ theorem lSetItem_prot (xs : List Tree) (i : Int) (v : Tree) :
     lSetItem G env f xs i v = (.list f xs, .err .perm) := by
   simp [lSetItem, guard_prot (hG .l_setitem rfl) hp]
 
-theorem lSetSlice_prot (xs : List Tree) (a b : Nat) (vs : List Tree) :
-    lSetSlice G env f xs a b vs = (.list f xs, .err .perm) := by
+theorem lSetSlice_prot (xs : List Tree) (a b st : Option Int) (vs : List Tree) :
+    lSetSlice G env f xs a b st vs = (.list f xs, .err .perm) := by
   simp [lSetSlice, guard_prot (hG .l_setitem rfl) hp]
+
+theorem lDelSlice_prot (xs : List Tree) (a b st : Option Int) :
+    lDelSlice G env f xs a b st = (.list f xs, .err .perm) := by
+  simp [lDelSlice, guard_prot (hG .l_delitem rfl) hp]
 
 theorem lDelItem_prot (xs : List Tree) (i : Int) :
     lDelItem G f xs env i = (.list f xs, .err .perm) := by
@@ -156,18 +160,14 @@ theorem dIOr_prot (kvs us : List (String × Tree)) :
   · simp only [h]; exact dUpdate_prot hG hp kvs us
   · simp [h]
 
-theorem oSetAttr_prot (cls : Nat) (attrs : List (String × Tree)) (k : String) (v : Tree) :
+theorem oSetAttr_prot (hO : (G .o_setattr).directSealed = true) (cls : Nat) (attrs : List (String × Tree))
+    (k : String) (v : Tree) :
     (oSetAttr G env f cls attrs k v).1 = .obj f cls attrs ∧
       ((oSetAttr G env f cls attrs k v).2 = .err .perm ∨ hasKey k attrs = false) := by
   unfold oSetAttr
   cases hk : hasKey k attrs
   · simp
-  · simp only [Bool.not_true, Bool.false_eq_true, if_false]
-    rcases guard_cases G env f .o_setattr with h | h
-    · have hc : treatsAsSealed env { sealed := f.sealed, accW := true } = true := by
-        simpa [treatsAsSealed] using hp
-      simp [h, guard_prot (hG .d_setitem rfl) hc]
-    · simp [h]
+  · simp [guard_prot hO hp]
 
 omit hG hp in
 theorem of_eq_perm {x : Tree × Res} {t : Tree} {b : Bool} (h : x = (t, .err .perm)) :
@@ -176,7 +176,8 @@ theorem of_eq_perm {x : Tree × Res} {t : Tree} {b : Bool} (h : x = (t, .err .pe
 
 /-- Every non-rebind call on a protected receiver: the receiver is unchanged, and the outcome is
 the permission error unless the call is benign. -/
-theorem nodeStep_prot (t : Tree) (op : Op) (hf : t.flags? = some f) (hr : op.isRebind = false) :
+theorem nodeStep_prot (hO : (G .o_setattr).directSealed = true) (t : Tree) (op : Op) (hf : t.flags? = some f)
+    (hr : op.isRebind = false) :
     (nodeStep G env t op).1 = t ∧ ((nodeStep G env t op).2 = .err .perm ∨ benign t op = true) := by
   cases t with
   | leaf a => simp [flags?] at hf
@@ -184,7 +185,8 @@ theorem nodeStep_prot (t : Tree) (op : Op) (hf : t.flags? = some f) (hr : op.isR
     simp [flags?] at hf; subst hf
     cases op
     case lSetItem i v => exact of_eq_perm (lSetItem_prot hG hp xs i v)
-    case lSetSlice a b vs => exact of_eq_perm (lSetSlice_prot hG hp xs a b vs)
+    case lSetSlice a b st vs => exact of_eq_perm (lSetSlice_prot hG hp xs a b st vs)
+    case lDelSlice a b st => exact of_eq_perm (lDelSlice_prot hG hp xs a b st)
     case lDelItem i => exact of_eq_perm (lDelItem_prot hG hp xs i)
     case lIAdd vs => exact of_eq_perm (lIAdd_prot hG hp xs vs)
     case lIMul k => exact of_eq_perm (lIMul_prot hG hp xs k)
@@ -220,7 +222,7 @@ theorem nodeStep_prot (t : Tree) (op : Op) (hf : t.flags? = some f) (hr : op.isR
     simp [flags?] at hf; subst hf
     cases op
     case oSetAttr k v =>
-      have := oSetAttr_prot hG hp cls attrs k v
+      have := oSetAttr_prot hG hp hO cls attrs k v
       refine ⟨this.1, this.2.imp id ?_⟩
       intro h; simp [benign, h]
     case rebind ps => simp [Op.isRebind] at hr
